@@ -111,6 +111,9 @@ def holds (p : Parsed) (impl : String) : String :=
            "FAILS later_candidates_tried: SSH public key prefix and the parser succeeds alone, yet the description is empty"
          else "holds")
     else if impl = "panic" then "holds (panic: C01)"
+    else if p.pgpBlocks > 0 ∧ okRuns.any (fun q => q.1 = "PEMFile" ∧ q.2 = impl) ∧ describedBlocks impl > p.blocks - p.pgpBlocks then
+      -- armor of ANY type (PGP MESSAGE, PGP SIGNATURE, …), anywhere in the content, is not a generic PEM block
+      "FAILS pgp_not_pem: PGP armor is reported as generic PEM (more blocks described than there are non-PGP blocks)"
     else match okRuns.filter (fun q => q.2 = impl) with
       | [] => "FAILS no_trace: result is neither a candidate's result nor the bare description"
       | hits =>
